@@ -8,6 +8,10 @@ ids = [p["id"] for p in props]
 
 # id -> (engine, technique, level text, level note, design ref)
 CHECKS = {
+ "C10": ("E4", "exhaustive fault/crash-point enumeration over the seam calls of the real rotate.Key (choice tree with deviation bound), with reload of the authority and a post-fault invariant plus a destroy-time monitor",
+         "Every call one rotation makes to the key manager, signer, certificate authority and (for gcsca) storage is a choice point {ok, fault, crash-after}; all single deviations (quick) and all pairs (thorough) are executed from two pre-states for memkm+memca, memkm+gcsca and localkm+localca; afterwards the authority is reloaded from durable state and the recorded primary key must be live, certified, chained to the root and able to endorse; the old key may only be destroyed once the new primary is durable; a fault-free --overwrite rotation must then succeed.",
+         "Trusted: the harness's in-memory object store models storage at object granularity; memkm key material is treated as durable ('the key service'); the Cloud KMS manager is covered by C20, not here; local-storage faults are injected at the authority/key-manager seam only (local.StorageClient cannot be decorated without breaking localca's type check).",
+         "DESIGN.md#c10"),
  "C09": ("E2", "stateless model checking of the real validators under a cooperative scheduler: preemption-bounded DFS over all interleavings at statement granularity (points woven in mechanically), results compared with isolated runs",
          "11 scenarios of 2-3 calls (one closure, two closures over one Options, family+default closures, preset endorsement, shared getter, sequential reuse, closure + plain verify sharing Options, SevValidate with shared options) are explored for every schedule with at most 2 (quick) / 3 (thorough) preemptions, with a scheduling point before every statement of verify/verify.go and gcetcbendorsement/sevvalidate.go; every call must return its isolated result. Thorough adds a separate free-running -race pass.",
          "Trusted: interleaving at statement granularity (sub-statement memory-model effects only via the -race pass); go-sev-guest validate is not instrumented (it holds no state shared between calls); schedules with more preemptions than the bound are not explored.",
